@@ -588,6 +588,71 @@ def run(ctx, report):
     from .c01 import fetch_width_rule
     fetch_width_rule(ctx, R6, X)
 
+    # -------------------------------------------------------------- D7 the immediate typing step is total
+    R7 = report.rule('C10.D7', 'arg_set_numpy_imm, evaluated on operand lists of every combination of operand sizes, returns (no internal error on operands of different sizes)', floor=40)
+    from .c09 import numpy_imm_eval
+    from ..consteval import PyRaise as _PyRaise, NotConst as _NotConst
+    afs_ = X.afs
+    toks = [t for t in (afs_.u08, afs_.u16, afs_.u32, getattr(afs_, 'f32', None), getattr(afs_, 'f64', None), afs_.mm, afs_.xmm, True) if t is not None]
+    for s1 in toks:
+        for s2 in toks:
+            for ad2 in (False, True):
+                ops = [{0: 1, afs_.size: s1, afs_.ad: False}, {1: 1, afs_.size: s2, afs_.ad: ad2}, {afs_.imm: 3, afs_.size: afs_.u32, afs_.ad: False}]
+                inst = 'arg_set_numpy_imm(%s, %s%s, imm)' % (s1, s2, ' mem' if ad2 else '')
+                try:
+                    numpy_imm_eval(ctx, ops)
+                except _PyRaise as e:
+                    R7.violation(inst, 'imm-typing-raises:%s' % e.exc_name, 'arg_set_numpy_imm raises %s on operands of sizes %s and %s with an immediate: an internal error instead of '
+                                 'candidates / the documented ValueError' % (e.exc_name, s1, s2), where(arch, arch.method('x86_mn', 'arg_set_numpy_imm')),
+                                 witness="asm_att('pinsrw $3, %ax, %xmm0') raises TypeError(unhashable type: 'set')")
+                    continue
+                except _NotConst as e:
+                    raise AnalysisError('arg_set_numpy_imm is outside the evaluable subset on %s: %s' % (inst, e))
+                R7.ok(inst, nontrivial=(s1 != s2))
+
+    # -------------------------------------------------------------- D8 operand arithmetic of the Intel parser: work bounded by the text
+    R8 = report.rule('C10.D8', 'dict_mul, evaluated on register x constant, does not build a value whose size is proportional to the constant', floor=4)
+    from ..consteval import Evaluator as _Ev
+    pad = ctx.mod('parse_ad')
+    dm = pad.func('dict_mul')
+    BIG = 1 << 16
+    for label, a_, b_ in (('reg*N', {1: 1, afs_.size: afs_.u32}, {afs_.imm: BIG}), ('N*reg', {afs_.imm: BIG}, {1: 1, afs_.size: afs_.u32}),
+                          ('(reg+reg)*N', {1: 1, 3: 1, afs_.size: afs_.u32, 'txt': 'ecx+ebx'}, {afs_.imm: BIG}), ('reg*8', {1: 1, afs_.size: afs_.u32}, {afs_.imm: 8})):
+        scope = {'x86_afs': afs_}
+        for fname_, fnode_ in pad.funcs.items():
+            scope.setdefault(fname_, fnode_)
+        inst = 'dict_mul %s' % label
+        try:
+            out = _Ev(scope).call_user(dm, [dict(a_), dict(b_)])
+        except _PyRaise as e:
+            if e.exc_name == 'ValueError' and label != 'reg*8':
+                R8.ok(inst, sample='%s: refused with the documented ValueError' % label)
+            else:
+                R8.violation(inst, 'dict-mul:%s:%s' % (label, e.exc_name), 'dict_mul raises %s on %s' % (e.exc_name, label), where(pad, dm))
+            continue
+        except _NotConst as e:
+            raise AnalysisError('dict_mul is outside the evaluable subset on %s: %s' % (label, e))
+        big = [k_ for k_, v_ in out.items() if isinstance(v_, str) and len(v_) >= BIG] if isinstance(out, dict) else []
+        if label == 'reg*8' and not big:
+            # a chain of small factors: the text grows by two characters per factor, the entry must not grow ninefold
+            try:
+                for _i in range(6):
+                    out = _Ev(scope).call_user(dm, [dict(out), {afs_.imm: 9}])
+                big = [k_ for k_, v_ in out.items() if isinstance(v_, str) and len(v_) >= BIG]
+                label = 'reg*8*9*9*9*9*9*9'
+            except _PyRaise as e:
+                if e.exc_name != 'ValueError':
+                    R8.violation(inst, 'dict-mul:chain:%s' % e.exc_name, 'dict_mul raises %s on a chain of factors' % e.exc_name, where(pad, dm))
+                    continue
+            except _NotConst as e:
+                raise AnalysisError('dict_mul is outside the evaluable subset on a chain: %s' % e)
+        if big:
+            R8.violation(inst, 'dict-mul:%s:repeat' % label, 'dict_mul repeats the string entry %r of the operand as many times as the constant says (%s with N = %d gives %d characters): '
+                         'a 31-bit scale factor is gigabytes of memory and a MemoryError instead of the documented error' % (big[0], label, BIG, len(out[big[0]])), where(pad, dm),
+                         witness="asm('mov eax, [ecx*0x7fffffff]') raises MemoryError")
+        else:
+            R8.ok(inst, sample='%s: no entry grows with the constant' % label)
+
     # -------------------------------------------------------------- D4 truncation / streams / progress
     R4 = report.rule('C10.D4', 'truncated input is reported as absent; reads are bounds-checked; loops make progress', floor=12)
     if not tries or 'IOError' not in caught:
@@ -900,4 +965,8 @@ MUTANTS = [
     ('loop-noprogress', 'miasmx/arch/ia32_arch.py', "            while True:\n                c = ord(bin.readbs())\n                read_bytes.append(c)\n", "            c = ord(bin.readbs())\n            while True:\n                read_bytes.append(c)\n", 'C10.D4'),
     ('from-att-suffix-keyerror', 'miasmx/arch/ia32_arch.py', "        if name[:-1] in att_mnemo_table[table] \\\n                and name[-1] in att_mnemo_table[table][0]:", "        if name[:-1] in att_mnemo_table[table]:", 'C10.D5'),
     ('str-args2', 'miasmx/arch/ia32_arch.py', "            if self.m.name in float_st_mnemo:\n                args = [ st, args[0] ]", "            if self.m.name in float_st_mnemo:\n                args = [ st, args[1] ]", 'C10.D2'),
+    ('imm-typing-set-key', 'miasmx/arch/ia32_arch.py', "        elif len(size) == 1 and list(size)[0] in tab_size2int:\n            size = size.pop()\n        else:", "        elif len(size) == 1 and list(size)[0] in tab_size2int:\n            size = size.pop()\n        elif len(size) == 0:", 'C10.D7'),
+    ('imm-typing-x87-key', 'miasmx/arch/ia32_arch.py', "        elif len(size) == 1 and list(size)[0] in tab_size2int:", "        elif len(size) == 1:", 'C10.D7'),
+    ('scale-unbounded', 'miasmx/core/parse_ad.py', "    if isinstance(v, str) and n*len(v) > 9*len(x86_afs.u32):", "    if False:", 'C10.D8'),
+    ('scale-per-factor', 'miasmx/core/parse_ad.py', "    if isinstance(v, str) and n*len(v) > 9*len(x86_afs.u32):", "    if isinstance(v, str) and n > 9:", 'C10.D8'),
 ]
